@@ -22,7 +22,8 @@ type Profile struct {
 	CsOn       int // percent of cases with the cache admitting and serving
 	SmallCache bool
 	MaxOps     int
-	RootCBP    int // percent of Interests that ask for the root prefix "/" with CanBePrefix
+	RootCBP    int  // percent of Interests that ask for the root prefix "/" with CanBePrefix
+	Full       bool // full-stack executor: draw the number of forwarding threads
 }
 
 var (
@@ -261,6 +262,9 @@ func genCaseFor(p Profile) func(t *rapid.T) Case {
 		}
 		if rapid.IntRange(0, 2).Draw(t, "imc") == 0 {
 			c.Ops = append(c.Ops, Op{K: "setstrat", N: rapid.SampledFrom([]string{"/", "/a", "/localhost"}).Draw(t, "isn"), Strat: 1})
+		}
+		if p.Full {
+			c.Cfg.Threads = rapid.SampledFrom([]int{1, 2, 2, 3, 4}).Draw(t, "threads")
 		}
 		raws := rapid.SliceOfN(rapid.Custom(genRaw), 1, p.MaxOps).Draw(t, "ops")
 		lhRoll := rapid.IntRange(0, 99).Draw(t, "lhroll")
